@@ -459,7 +459,7 @@ def main(argv=None):
         wall_s=round(wall, 2),
         violations=len(violation_lines),
     )
-    if only is None and scale == 1.0:
+    if only is None and scale == 1.0 and os.environ.get("VERIF_NO_EVIDENCE") != "1":
         os.makedirs(os.path.join(VERIF, "evidence"), exist_ok=True)
         with open(os.path.join(VERIF, "evidence", f"{pid}.json"), "w") as f:
             json.dump(evidence, f, indent=1, sort_keys=True, default=str)
